@@ -9,6 +9,7 @@ from engine import AnalysisError
 from engine.srcmodel import walk_shallow, norm, parent, ancestors
 from engine.util import call_name, contains, fstring_template, alias_is_stable
 from engine.cfg import stmt_of
+from engine.inline import inlined
 from engine.dataflow import assigned_value, target_names
 from . import helpers as H
 from .c02 import r1_interp
@@ -651,9 +652,13 @@ def r3_time_grid(ctx, rid):
         results.setdefault((host, label), []).append((node, good, ok_msg, bad_msg, facts))
 
     for name in CALLERS:
-        h = cls.methods.get(name)
-        ctx.require(h is not None, f"{rid}: anchor vanished: {CLS}.{name}")
-        sites = hosts_of(ctx, h, lambda fn: _calls(fn, "_add_input"), skip=(entry_points - {h}) | {f})
+        h0 = cls.methods.get(name)
+        ctx.require(h0 is not None, f"{rid}: anchor vanished: {CLS}.{name}")
+        # private helpers the public method delegates to (input loop, validation + apply, ...) are spliced in statement by
+        # statement, so that _add_input, apply() and run() are seen in one body wherever they were moved to; helpers that cannot be
+        # spliced (unstructured returns) are still followed through the call chain below
+        h = inlined(ctx, h0, keep=("_add_input", "_add_input_node", "_validate_backend_args"))
+        sites = hosts_of(ctx, h, lambda fn: _calls(fn, "_add_input"), skip=(entry_points - {h0}) | {f})
         ctx.require(len(sites) == 1, f"{rid}: expected one function with an _add_input call in or below {name}, found "
                                      f"{sorted(x[0].qualname for x in sites)}")
         host, chain = sites[0]
@@ -917,21 +922,38 @@ def r4_update_template_forwards(ctx, rid):
 # --------------------------------------------------------------------------------------------
 
 def _emptiness_test(test, is_list):
-    """'empty-true' if the test is true exactly when the list is empty, 'empty-false' for the negation, else None."""
+    """'empty-true' if the test is true exactly when the list is empty, 'empty-false' for the negation, else None.
+    Spellings: `not x`, `x`, `len(x)` / `not len(x)`, `len(x) <op> 0|1` (either operand order), `x == []` / `x != []` (also `list()`,
+    `()`), `bool(x)`."""
+    flip = {"empty-true": "empty-false", "empty-false": "empty-true", None: None}
+
+    def is_len(e):
+        return isinstance(e, ast.Call) and call_name(e) == "len" and isinstance(e.func, ast.Name) and len(e.args) == 1 \
+            and not e.keywords and is_list(e.args[0])
+
+    def empty_literal(e):
+        return (isinstance(e, (ast.List, ast.Tuple)) and not e.elts) \
+            or (isinstance(e, ast.Call) and isinstance(e.func, ast.Name) and e.func.id in ("list", "tuple") and not e.args and not e.keywords)
     if isinstance(test, ast.UnaryOp) and isinstance(test.op, ast.Not):
-        if is_list(test.operand):
-            return "empty-true"
-        if isinstance(test.operand, ast.Call) and call_name(test.operand) == "len" and len(test.operand.args) == 1 and is_list(test.operand.args[0]):
-            return "empty-true"
-    if is_list(test):
+        return flip[_emptiness_test(test.operand, is_list)]
+    if is_list(test) or is_len(test):
         return "empty-false"
-    if isinstance(test, ast.Compare) and len(test.ops) == 1 and isinstance(test.left, ast.Call) and call_name(test.left) == "len" \
-            and len(test.left.args) == 1 and is_list(test.left.args[0]) and isinstance(test.comparators[0], ast.Constant):
-        c, op = test.comparators[0].value, test.ops[0]
-        if (c == 0 and isinstance(op, (ast.Eq, ast.LtE))) or (c == 1 and isinstance(op, ast.Lt)):
-            return "empty-true"
-        if (c == 0 and isinstance(op, (ast.Gt, ast.NotEq))) or (c == 1 and isinstance(op, ast.GtE)):
-            return "empty-false"
+    if isinstance(test, ast.Call) and isinstance(test.func, ast.Name) and test.func.id == "bool" and len(test.args) == 1 and not test.keywords:
+        return _emptiness_test(test.args[0], is_list)
+    if isinstance(test, ast.Compare) and len(test.ops) == 1:
+        l, r, op = test.left, test.comparators[0], test.ops[0]
+        if isinstance(op, (ast.Eq, ast.NotEq)) and ((is_list(l) and empty_literal(r)) or (is_list(r) and empty_literal(l))):
+            return "empty-true" if isinstance(op, ast.Eq) else "empty-false"
+        swap = {ast.Lt: ast.Gt, ast.Gt: ast.Lt, ast.LtE: ast.GtE, ast.GtE: ast.LtE, ast.Eq: ast.Eq, ast.NotEq: ast.NotEq}
+        opc = type(op)
+        if is_len(r) and isinstance(l, ast.Constant) and opc in swap:
+            l, r, opc = r, l, swap[opc]
+        if is_len(l) and isinstance(r, ast.Constant) and isinstance(r.value, int) and not isinstance(r.value, bool):
+            c = r.value
+            if (c == 0 and opc in (ast.Eq, ast.LtE)) or (c == 1 and opc is ast.Lt):
+                return "empty-true"
+            if (c == 0 and opc in (ast.Gt, ast.NotEq)) or (c == 1 and opc is ast.GtE):
+                return "empty-false"
     return None
 
 
@@ -957,14 +979,48 @@ def r5_empty_selection_reported(ctx, rid):
                 if isinstance(n, ast.Call) and call_name(n) in ("warn", "warning", "error"):
                     return True
         return False
-    good = []
+    def when_empty(test, depth=3):
+        """Value of the test when the node list is empty: True / False when that is certain, 'partial' when the test also depends
+        on something else, None when it does not look at the list, 'unknown' when it looks at it in an unrecognised way."""
+        kind = _emptiness_test(test, is_list)
+        if kind is not None:
+            return kind == "empty-true"
+        if isinstance(test, ast.UnaryOp) and isinstance(test.op, ast.Not):
+            r = when_empty(test.operand, depth)
+            return (not r) if isinstance(r, bool) else r
+        if isinstance(test, ast.Name) and depth > 0 and comp_generator_of(test) is None:
+            defs = ctx.rd(f).defs_reaching(test)
+            if len(defs) == 1 and not isinstance(defs[0], ast.arguments):
+                v = assigned_value(defs[0], test.id)
+                if v is not None and isinstance(v, (ast.BoolOp, ast.Compare, ast.UnaryOp, ast.Name, ast.Call)) \
+                        and alias_is_stable(ctx, f, defs[0], test, v):
+                    return when_empty(v, depth - 1)
+            return None
+        if isinstance(test, ast.BoolOp):
+            parts = [when_empty(v, depth) for v in test.values]
+            if "unknown" in parts:
+                return "unknown"
+            decisive = isinstance(test.op, ast.Or)          # `or`: one True part decides; `and`: one False part decides
+            if any(p_ is decisive for p_ in parts):
+                return decisive
+            if all(p_ is (not decisive) for p_ in parts):
+                return not decisive
+            return "partial" if any(p_ is not None for p_ in parts) else None
+        if any(isinstance(n, ast.Name) and is_list(n) for n in ast.walk(test)):
+            return "unknown"
+        return None
+    good, unknown = [], []
     for st in cfg.stmts():
         if isinstance(st, ast.If):
-            kind = _emptiness_test(st.test, is_list)
-            if kind == "empty-true" and reports(st.body):
+            w = when_empty(st.test)
+            if w is True and reports(st.body):
                 good.append(st)
-            elif kind == "empty-false" and st.orelse and reports(st.orelse):
+            elif w is False and st.orelse and reports(st.orelse):
                 good.append(st)
+            elif w == "unknown" and (reports(st.body) or reports(st.orelse)):
+                unknown.append(st)
+    if not good and unknown:
+        raise AnalysisError(f"{rid}: cannot tell whether `{norm(unknown[0])}` is taken when `{norm(tn)}` selected nothing (unrecognised form)")
     if not good:
         ctx.violation(rid, f, tn, f"`{norm(tn)}` may return an empty list and no branch warns or raises for that case: an input addressed to "
                                   f"a misspelt or non-existent variable creates no edge and is dropped without a word",
